@@ -7,7 +7,7 @@
  * The patch document is ANY tree, not only an array of objects.
  *
  * Observation:
- *   <rc> <errno_code> <idx> <typed dump of *base> P<=|!dump> C<=|!|-> S<n>:<m> END <live>
+ *   <rc> <errno_code> <idx> <typed dump of *base> P<=|!dump> C<=|!|-> S<n>:<m>:<d> R<=|!..> END <live>
  *     errno_code  json_patch_error.errno_code by name (EFAULT is spelled out), 0 on success
  *     idx         patch_failure_idx when rc != 0 (MAX = SIZE_T_MAX), - on success
  *     P=          the patch document is what it was before the call (typed, ordered comparison
@@ -15,6 +15,12 @@
  *     C= / C!     mode c: the copy source is / is not what it was;  C-  in mode i
  *     S<n>:<m>    sharing probe: n = nodes reachable from *base that are also reachable from the
  *                 patch document, m = (mode c) nodes reachable from *base also reachable from the source
+ *     R= / R!     ownership of the document: in mode i the driver keeps a second reference on
+ *                 the target node; afterwards that node is held by exactly *base and the driver
+ *                 (*base still the target) or by the driver alone (root replaced / removed), and a
+ *                 new *base is held exactly once; in mode c the source and *base are each held
+ *                 exactly once.  R!<detail> when a reference was dropped or kept that was not the
+ *                 library's — also, and in particular, when the call FAILS
  *     END <live>  allocations still live after *base, the patch document (both references), the
  *                 twins and the source were released
  * A NULL dereference / use after free / double release is caught by the framework (CRASH). */
@@ -127,7 +133,8 @@ void run_case(char *rest)
 	char mode;
 	char *t1, *t2;
 	const char *p;
-	struct json_object *tgt = NULL, *tgt_twin = NULL, *pat = NULL, *pat_twin = NULL, *base = NULL;
+	struct json_object *tgt = NULL, *tgt_twin = NULL, *pat = NULL, *pat_twin = NULL, *base = NULL, *orig = NULL;
+	char rdetail[96] = "";
 	struct json_patch_error err;
 	struct pset sr = {0}, sp = {0}, ss = {0};
 	int perr = 0, rc;
@@ -150,12 +157,26 @@ void run_case(char *rest)
 	errno = 0;
 	if (mode == 'i') {
 		base = tgt;                           /* ownership of the target moves into base */
+		orig = json_object_get(tgt);          /* and we keep a second reference on that node */
 		tgt = NULL;
 		rc = json_patch_apply(NULL, pat, &base, &err);
 	} else {
 		base = NULL;
 		rc = json_patch_apply(tgt, pat, &base, &err);
 	}
+
+	/* who holds the document now?  (before anything dereferences *base) */
+	if (mode == 'i') {
+		if (orig) {
+			unsigned have = orig->_ref_count, want = (base == orig) ? 2u : 1u;
+			if (have != want) snprintf(rdetail, sizeof rdetail, "target:%u/%u", have, want);
+			else if (base && base != orig && base->_ref_count != 1) snprintf(rdetail, sizeof rdetail, "base:%u/1", (unsigned)base->_ref_count);
+		}
+	} else {
+		if (tgt && tgt->_ref_count != 1) snprintf(rdetail, sizeof rdetail, "source:%u/1", (unsigned)tgt->_ref_count);
+		else if (base && base->_ref_count != 1) snprintf(rdetail, sizeof rdetail, "base:%u/1", (unsigned)base->_ref_count);
+	}
+	if (rdetail[0] && mode == 'i' && orig && base == orig && orig->_ref_count < 2) base = NULL;   /* *base dangles: do not touch it again */
 
 	printf("%d %s ", rc, pe_name(err.errno_code));
 	if (rc == 0) putchar('-');
@@ -172,8 +193,10 @@ void run_case(char *rest)
 	if (mode == 'c') { reach(tgt, &ss); n_src = common(&sr, &ss); }
 	printf(" S%zu:%zu:%zu", n_patch, n_src, dups(&sr));
 	(free)(sr.p); (free)(sp.p); (free)(ss.p);
+	if (rdetail[0]) printf(" R!%s", rdetail); else printf(" R=");
 
 	json_object_put(base);
+	json_object_put(orig);
 	json_object_put(pat); json_object_put(pat);
 	json_object_put(pat_twin);
 	json_object_put(tgt); json_object_put(tgt_twin);
